@@ -276,6 +276,15 @@ def _case(draw, tier, want):
 
 # ----------------------------------------------------------------------------- builder
 
+def _norm(spec):
+    """replay files written before the generalisation pass lack the newer fields: fill in the values they implied"""
+    spec = dict(spec)
+    for k, v in (('scheme', 'plain'), ('size', 'small'), ('positional', False), ('fret', 'tuple'), ('again', False), ('prev_first', False)):
+        spec.setdefault(k, v)
+    spec['inputs'] = [dict(i, extra='junk' if i.get('extra') is True else (i.get('extra') or None)) if i['kind'] == 'table' else i for i in spec['inputs']]
+    return spec
+
+
 def _extra_name(i, on):
     return {'junk': 'junk', 'data': 'data', 'name_x': i['name'] + '_x', 'key_x': on[0] + '_x'}[i['extra']]
 
@@ -522,6 +531,7 @@ def _rows(spec, K, built, names):
 # ----------------------------------------------------------------------------- perdictable without data / expiry
 
 def run_perd(spec):
+    spec = _norm(spec)
     from pyg_base import perdictable, dictable
     env, inputs, built, defaults = _build(spec)
     names = [i['name'] for i in spec['inputs']]
@@ -574,6 +584,7 @@ def run_perd(spec):
 # ----------------------------------------------------------------------------- join(inputs, on, defaults)
 
 def run_join(spec):
+    spec = _norm(spec)
     from pyg_base import dictable
     from pyg_base._perdictable import join
     env, inputs, built, defaults = _build(spec)
@@ -616,6 +627,7 @@ def run_join(spec):
 # ----------------------------------------------------------------------------- data / expiry
 
 def run_expiry(spec):
+    spec = _norm(spec)
     from pyg_base import perdictable, dictable
     env, inputs, built, defaults = _build(spec)
     names = [i['name'] for i in spec['inputs']]
